@@ -15,6 +15,8 @@ import (
 	"verifharness/c07"
 	"verifharness/c09"
 	"verifharness/c10"
+	"verifharness/c11"
+	"verifharness/c12"
 	"verifharness/c16"
 	"verifharness/c17"
 	"verifharness/c18"
@@ -27,6 +29,11 @@ type entry struct {
 }
 
 var registry = map[string]entry{
+	"c12.RunNames":       {c12.Setup, c12.RunNames},
+	"c12.RunLang":        {c12.Setup, c12.RunLang},
+	"c11.RunNameTests":   {c11.Setup, c11.RunNameTests},
+	"c11.RunVariables":   {c11.Setup, c11.RunVariables},
+	"c11.RunFunctions":   {c11.Setup, c11.RunFunctions},
 	"c17.RunHTML":        {c17.Setup, c17.RunHTML},
 	"c09.RunXML":         {c09.Setup, c09.RunXML},
 	"c16.RunJSON":        {c16.Setup, c16.RunJSON},
